@@ -1117,6 +1117,9 @@ func isSizeOfItem(fn *ssa.Function, amount ssa.Value, item ssa.Value) bool {
 		return false
 	}
 	lenArg := func(v ssa.Value) ssa.Value {
+		if cv, isCv := v.(*ssa.Convert); isCv { // uint(len(k)) + uint(len(v))
+			v = cv.X
+		}
 		call, ok := v.(*ssa.Call)
 		if !ok {
 			return nil
@@ -1465,8 +1468,16 @@ func c09SetDecision(c *Ctx, set *ssa.Function) {
 		if !ok || b.Op != token.ADD {
 			return false
 		}
-		lx, okx := b.X.(*ssa.Call)
-		ly, oky := b.Y.(*ssa.Call)
+		// uint(len(key)+len(val)) or uint(len(key))+uint(len(val))
+		bx, by := b.X, b.Y
+		if cv, ok := bx.(*ssa.Convert); ok {
+			bx = cv.X
+		}
+		if cv, ok := by.(*ssa.Convert); ok {
+			by = cv.X
+		}
+		lx, okx := bx.(*ssa.Call)
+		ly, oky := by.(*ssa.Call)
 		return okx && oky && core.CalleeName(&lx.Call) == "builtin.len" && core.CalleeName(&ly.Call) == "builtin.len" &&
 			((lx.Call.Args[0] == ssa.Value(set.Params[1]) && ly.Call.Args[0] == ssa.Value(set.Params[2])) || (lx.Call.Args[0] == ssa.Value(set.Params[2]) && ly.Call.Args[0] == ssa.Value(set.Params[1])))
 	}
@@ -1474,9 +1485,17 @@ func c09SetDecision(c *Ctx, set *ssa.Function) {
 		if fieldLoad(v, "conf", "EnableLRU") {
 			return "L", true
 		}
-		b, ok := v.(*ssa.BinOp)
+		b0, ok := v.(*ssa.BinOp)
 		if !ok {
 			return "", false
+		}
+		// mirrored forms: `max < x` is `x > max`, `max == n` is `n == max`
+		b := &ssa.BinOp{Op: b0.Op, X: b0.X, Y: b0.Y}
+		if b.Op == token.LSS {
+			b.Op, b.X, b.Y = token.GTR, b0.Y, b0.X
+		}
+		if b.Op == token.EQL && fieldLoad(b.X, "conf", "MaxCount") {
+			b.X, b.Y = b0.Y, b0.X
 		}
 		switch {
 		case b.Op == token.GTR && isAddSize(b.X) && fieldLoad(b.Y, "conf", "MaxElementSize"):
